@@ -246,6 +246,17 @@ def run(ck, P):
                                                                           "still IDLE: the last mod_deregister re-enters m_ctx_deregister"),
               witness=[("del_event", dereg.unit, dereg.name, w.block.id, w.idx) for w in setters])
 
+    # the teardown marker must also close the registration gate: a module registered from a callback during the pass would survive it
+    markers = sorted({cval(w.rhs) for w in dereg.events() if w.kind == "assign" and S(w.lhs).endswith("->state") and cval(w.rhs) not in (None, IDLE, E["M_CTX_LOOPING"])
+                      and any(dereg.ev_dominates(w, pp) for pp in passes)})
+    mr0 = P.fn("m_mod_register")
+    puts0 = [e for e in mr0.calls("m_map_put") if S(e.args[0]).endswith("->modules")]
+    okgate = bool(markers) and bool(puts0) and all(has(X.facts(mr0, e, passed=True), "(c->state == %d)" % markers[0], False) for e in puts0)
+    ck.ob("C07.3-NO-REENTRY", mr0.site("no registration during teardown"), okgate,
+          "m_mod_register refuses while the context carries the teardown marker (state == %s)" % markers if okgate else
+          "m_mod_register inserts into c->modules without testing the teardown marker %s: a module registered from an on_stop() callback during "
+          "m_ctx_deregister's pass is not deregistered and keeps the released context alive" % markers)
+
     # ------------------------------------------------------------------ 4. looping context refuses
     ck.rule("C07.4-LOOPING-REFUSES", "R-GUARD: c->state == M_CTX_IDLE dominates every effect of m_ctx_deregister; the failing edge "
             "returns a negative code without effect", floor=1)
